@@ -61,6 +61,8 @@ def scenario(rng, ident, n_out, n_in, order_out, order_in, tier):
             err = "-"
             if rng.chance(1, 5):
                 err = T(("s", b"app-error-%d" % i))
+            elif rng.chance(1, 6):
+                err = rng.choice(["!canceled", "!deadline", "!eof"])
             s.append("finish/%d/%s/%s/nowait" % (i, T(res), err))
             if kinds[i]:
                 exprep.append("%d~%d" % (50 + i, 100 + i))
